@@ -17,8 +17,9 @@
    in proofs/C17Proof.v.  That ANTLR's generated parser accepts the same
    language and builds the same trees is the correspondence (tools/harness/c17.go),
    not a theorem.  The last clause holds of the model by construction and is
-   REFUTED on the implementation (known findings KF-C17-D10a / KF-C17-D10b). *)
-From Grule Require Import Base Syntax Lexer Parser GrlPrint LexProofs ParserProofs C17Proof.
+   checked on the implementation by the rollback oracles of the harness (the
+   builder is transactional since the fix 4ed034e). *)
+From Grule Require Import Base Syntax Lexer Parser GrlPrint LexProofs ParserProofs ParserWf C17Proof.
 
 Theorem C17_roundtrip_partial : C17_roundtrip_partial_statement.
 Proof. exact C17_roundtrip_partial_proved. Qed.
@@ -43,3 +44,7 @@ Print Assumptions C17_reject.
 Theorem C17_string_literal : C17_string_literal_statement.
 Proof. exact C17_string_literal_proved. Qed.
 Print Assumptions C17_string_literal.
+
+Theorem C17_snapshot_link : C17_snapshot_link_statement.
+Proof. exact C17_snapshot_link_proved. Qed.
+Print Assumptions C17_snapshot_link.
